@@ -8,6 +8,11 @@ from vplib import facts, inline
 
 names = set()
 sig = {}
+adts = {}
+consts = {}
+calls = {}
+present = {}
+MEMBERS = {"vaporetto", "vaporetto_rules", "vaporetto_tantivy", "predict", "train", "evaluate", "manipulate_model", "convert_kytea_model"}
 cfgs = ["W"] + list(facts.all_feature_configs(with_simd=True))
 for c in cfgs:
     try:
@@ -19,13 +24,32 @@ for c in cfgs:
     for f in sorted(glob.glob(os.path.join(d, "*.json"))):
         j = json.load(open(f))
         sigs = {f["path"]: "%s -> %s" % (", ".join(f["inputs"]), f["output"]) for f in j["fns"]}
+        if j["crate"] in MEMBERS:
+            for a in j["adts"]:
+                adts.setdefault(a["path"], [[v["name"], [[f["name"], f["ty"]] for f in v["fields"]]] for v in a["variants"]])
+            for c_ in j["consts"]:
+                consts.setdefault(c_["path"], [c_["ty"], json.dumps(c_.get("value"), sort_keys=True)])
         for b in j["bodies"]:
+            if j["crate"] in MEMBERS:
+                cs = calls.setdefault(b["fn"], set())
+                for bl in b["blocks"]:
+                    tt = bl["term"]
+                    if tt["k"] == "call" and "indirect" not in tt["callee"]:
+                        cs.add(tt["callee"].get("resolved") or tt["callee"]["path"])
             if b["promoted"] is None:
                 names.add(b["fn"])
+                present.setdefault(b["fn"], set()).add(cfgs.index(c))
                 if b["fn"] in sigs:
                     sig[b["fn"]] = sigs[b["fn"]]
 with open(inline.BASELINE, "w") as f:
     f.write("# function paths of the confirmed tree (commit %s), union over %d configurations\n" % (os.popen("git -C /repo rev-parse --short HEAD").read().strip(), len(cfgs)))
+    f.write("#configs\t" + "|".join(cfgs) + "\n")
     for n in sorted(names):
-        f.write(n + ("\t" + sig[n] if n in sig else "") + "\n")
+        f.write(n + "\t" + sig.get(n, "") + "\t" + "%x" % sum(1 << i for i in present.get(n, ())) + "\n")
 print(len(names), "functions")
+
+import json as _json
+with open(os.path.join(os.path.dirname(inline.BASELINE), "baseline_items.json"), "w") as f:
+    ADAPT = ("core::option::Option::map", "core::result::Result::map", "core::option::Option::map_or", "core::option::Option::and_then")
+    _json.dump({"adts": adts, "consts": consts, "adaptor_calls": {k: sorted(c for c in v if c in ADAPT) for k, v in calls.items() if any(c in ADAPT for c in v)}}, f, indent=0, sort_keys=True, ensure_ascii=False)
+print(len(adts), "adts", len(consts), "consts")
